@@ -111,7 +111,7 @@ func c19gNoReturnBeforeUse(c *eng.Ctx) {
 	}
 	c.Clause("R2", "C19.2")
 	cts := eng.Calls(f, `vault\.\(\*Core\)\.CheckToken$`)
-	uses := eng.Calls(f, `vault\.\(\*TokenStore\)\.UseToken$`)
+	uses := eng.Calls(f, fwdPat(f, useTokenPat))
 	if !c.Floor(f, "CheckToken call", len(cts), 1) || !c.Floor(f, "UseToken call", len(uses), 1) {
 		return
 	}
@@ -390,7 +390,7 @@ func c19gControlGroupRMW(c *eng.Ctx) {
 		return
 	}
 	c.Clause("R9", "C19.1")
-	held := eng.MustHold(f, eng.LockCall(`LockForKey.*tokenLocks`, "Lock"), eng.LockCall(`LockForKey.*tokenLocks`, "Unlock"))
+	held := eng.MustHold(f, tokenLockCall("Lock"), tokenLockCall("Unlock"))
 	reread := eng.Calls(f, `vault\.\(\*TokenStore\)\.lookupInternal$`)
 	stores := eng.Calls(f, `vault\.\(\*Core\)\.setControlGroupInTokenEntry$|vault\.\(\*TokenStore\)\.store$`)
 	if !c.Floor(f, "re-read (lookupInternal)", len(reread), 1) || !c.Floor(f, "store of the entry", len(stores), 1) {
@@ -437,27 +437,28 @@ func c19gControlGroupRMW(c *eng.Ctx) {
 // upgrade persist under the caller's read lock — are outside this clause.
 func c19gLockedStoresAreLockedReads(c *eng.Ctx) {
 	c.Clause("R9", "C19.1")
-	acquire := eng.LockCall(`LockForKey.*tokenLocks`, "Lock")
-	release := eng.LockCall(`LockForKey.*tokenLocks`, "Unlock")
+	const writers = tokenStorePat + `|vault\.\(\*Core\)\.setControlGroupInTokenEntry$`
 	n := 0
 	for _, fn := range c.P.Funcs {
 		if !eng.InPkg(fn, "vault") || len(fn.Blocks) == 0 {
 			continue
 		}
-		stores := eng.Calls(fn, `vault\.\(\*TokenStore\)\.store$|vault\.\(\*Core\)\.setControlGroupInTokenEntry$`)
+		pat := fwdPat(fn, writers)
+		stores := eng.Calls(fn, pat)
 		if len(stores) == 0 {
 			continue
 		}
-		held := eng.MustHold(fn, acquire, release)
+		held := eng.MustHold(fn, tokenLockCall("Lock"), tokenLockCall("Unlock"))
+		entered := heldByEveryCaller(c, fn) // a "...Locked" body: the caller holds the lock over the whole function
 		for _, s := range stores {
-			if !held(s) {
+			if !entered && !held(s) {
 				continue
 			}
-			a := s.Common().Args
-			if len(a) < 3 {
+			arg := fwdArg(fn, writers, s, 2)
+			if arg == nil {
 				continue
 			}
-			for _, o := range eng.Origins(a[2]) {
+			for _, o := range eng.Origins(arg) {
 				ex, ok := o.Val.(*ssa.Extract)
 				if !ok || ex.Index != 0 {
 					continue
@@ -468,7 +469,7 @@ func c19gLockedStoresAreLockedReads(c *eng.Ctx) {
 				}
 				n++
 				site := "entry stored under the token lock was read under it"
-				if held(lk) {
+				if entered || held(lk) {
 					c.OK(fn, site, s.Pos(), "lookupInternal and the store both execute with the per-token lock held")
 				} else {
 					c.Violation(fn, site, s.Pos(), "the entry written back under the per-token lock comes from a lookupInternal made before the lock was taken: a concurrent UseToken decrement (or revocation marker) stored in between is overwritten", nil)
